@@ -666,6 +666,9 @@ func main() {
 	// the goroutines, not by a warm-up), one shared instance at a time: all goroutines hammer the same task together
 	// (accesses to one object stay close in time, which is what the race detector's bounded history needs), every
 	// goroutine walking the inputs from its own offset.  The sequential reference is computed afterwards.
+	// a call that never returns is told from a slow one by a bound that grows with the work asked for: two minutes plus a
+	// fifth of a second per input of each goroutine (P-521 signatures under the race detector on a loaded machine take tens of ms each)
+	watchdog := 2*time.Minute + time.Duration(*N)*200*time.Millisecond
 	got := make([][][][]byte, len(tasks)) // [task][goroutine][input]
 	for t := range tasks {
 		got[t] = make([][][]byte, *G)
@@ -688,8 +691,8 @@ func main() {
 		go func() { wg.Wait(); close(done) }()
 		select {
 		case <-done:
-		case <-time.After(2 * time.Minute):
-			fmt.Printf("MISMATCH task=%s BLOCKED: the goroutines did not return within 2 minutes (a call on the shared object never returns)\n", tasks[t].name)
+		case <-time.After(watchdog):
+			fmt.Printf("MISMATCH task=%s BLOCKED: the goroutines did not return within %v (a call on the shared object never returns)\n", tasks[t].name, watchdog)
 			os.Exit(1)
 		}
 	}
